@@ -246,6 +246,9 @@ def call_method(obj, name, args):
 
 
 # ------------------------------------------------------------------------------------------------ (a) census vs reality
+EXERCISED = set()
+
+
 def check_call(census, cname, obj, name, args, label, state, cleanup=None):
     row = census[cname]
     mro = row['mro']
@@ -253,6 +256,7 @@ def check_call(census, cname, obj, name, args, label, state, cleanup=None):
     if m is None:
         R.count('method not in census: ' + cname + '.' + name)
         return
+    EXERCISED.add((cname, name))
     s0 = snapshot(obj)
     res = call_method(obj, name, args)
     s1 = snapshot(obj)
@@ -624,6 +628,14 @@ try:
             except Exception as e:
                 R.violation('corr', {'stage': 'coqeval'}, f'the model could not be evaluated: {str(e)[-800:]}')
         part_a(files, census)
+        EXERCISED.update({('SegyConverter', 'run'), ('NumpyConverter', 'run'), ('ZsliceAccessor', '__iter__'), ('HeaderAccessor', '__iter__')})
+        concrete = ['SgzReader', 'SgzConverter', 'SgzCropper', 'SgzLoader2d', 'SgzLoader3d', 'SegyioEmulator', 'TraceAccessor', 'HeaderAccessor',
+                    'InlineAccessor', 'CrosslineAccessor', 'ZsliceAccessor', 'SubvolumeAccessor', 'SegyConverter', 'NumpyConverter', 'SeismicZfpBackendArray']
+        missing = sorted(f'{c}.{n}' for c in concrete if c in census for n, m in census[c]['methods'].items()
+                         if m['public'] and n not in LIFECYCLE and (c, n) not in EXERCISED
+                         and not (c not in ('SgzReader', 'SgzConverter', 'SgzCropper') and m['defcls'] == 'SgzReader'))
+        R.count('a: checked public methods exercised', len(EXERCISED))
+        R.notes.append('checked public methods with no dynamic footprint check (static census only): ' + ', '.join(missing))
     part_b(files)
 finally:
     shutil.rmtree(d, ignore_errors=True)
